@@ -13,9 +13,11 @@ done
 for f in $(git diff --name-only --diff-filter=U); do
   case "$f" in
     evidence/*) git checkout --theirs -- "$f"; git add "$f";;
+    lean/JinjaV/Gen/*|translate/baseline/*) git checkout --ours -- "$f"; git add "$f"; regen=1;;   # regenerated from /repo below
     *) echo "CONFLICT: $f";;
   esac
 done
+if [ "${regen:-0}" = 1 ]; then /venv/bin/python translate/update_baseline.py >/dev/null 2>&1; git add lean/JinjaV/Gen translate/baseline; fi
 python3 tools/gen_wire_all.py
 /venv/bin/python tools/mk_manifest.py
 git status --short | grep -v "^A \|^M " | head
